@@ -44,10 +44,14 @@ Inductive fields := FNamed (l : list field) | FUnnamed (l : list field) | FUnit.
 Record variant := { v_attrs : list attr; v_ident : str; v_fields : fields }.
 Inductive gparam := GPType (id : str) | GPOther.
 
-(* const initialiser as seen by ExprLitVisitor: the first literal in syn's visit order *)
+(* const initialiser (syn::Expr) as far as parse_const_expr looks at it (since the /repo fix of
+   C08-const-expr it no longer takes "the first literal anywhere in the expression") *)
 Inductive clit := CInt (v : option Z) | CNotInt.  (* CInt None: base10_parse::<i128> failed *)
-Record cexpr := { ce_first_lit : option clit;
-                  ce_plain : option Z }.          (* Some z iff the whole expression is the integer literal z *)
+Inductive cexpr :=
+| CELit (l : clit)                    (* Expr::Lit *)
+| CEParen (e : cexpr)                 (* Expr::Paren and Expr::Group *)
+| CENeg (e : cexpr)                   (* Expr::Unary with UnOp::Neg *)
+| CEOther.                            (* any other expression: 1 + 2, foo(7), !0, X, { 5 } ... *)
 
 Inductive use_tree :=
 | UPath (id : str) (t : use_tree)
